@@ -17,6 +17,7 @@ import (
 
 	"verif.local/ev"
 
+	"verif/lib/explore"
 	"verif/lib/netctl"
 	"verif/lib/nrun"
 	"verif/lib/nscen"
@@ -590,6 +591,22 @@ func genFinal(x *netctl.Exec) {
 // schedule (2 x 276 x 6 = 3312); thorough = settle F|A|-, any think times, all
 // gate/fin pairs (2 x 1332 x 10 = 26640) on the default schedule, then every
 // single deviation, time-capped.
+//
+// The single deviations are restricted to the one-round scripts (2 x 36 x 10
+// parents): every execution is the parent of 100-200 deviating jobs, and keeping
+// those for all 26640 members would need gigabytes in the explorer.
 func GenPlans() []nrun.Plan {
-	return []nrun.Plan{{Scenario: genScenario(), QuickBudget: 0, ThoroughBudget: 1, Weight: 4}}
+	return []nrun.Plan{{Scenario: genScenario(), QuickBudget: 0, ThoroughBudget: 1, Weight: 4, Allow: genAllow}}
+}
+
+func genAllow(parent explore.Job, point int, label string, cost int) bool {
+	if cost == 0 {
+		return true
+	}
+	for _, l := range parent.Labels {
+		if strings.HasPrefix(l, "s1=") && strings.Contains(l, ".") {
+			return false
+		}
+	}
+	return true
 }
